@@ -54,6 +54,8 @@ package main
 // representable as float64, frac, inf, nan), of a string its spelling (int,
 // frac, exp, goparse, nonnum; long-frac, long-exp, long-int beyond 100 characters).
 // Phases long and again: see c06_r5.go. Phases inf and typed: see c06_r6.go.
+// Phases ptr and uns (pointer operands; host integers of other Go types, unsigned values up to
+// 2^64-1): see c06_r7.go.
 
 import (
 	"fmt"
@@ -75,13 +77,15 @@ import (
 // value model
 
 type c06V struct {
-	k    byte // 'n' nil, 'b' bool, 'i' int64, 'f' float64, 's' string, 'L' slice, 'M' map (string keys)
+	k    byte // 'n' nil, 'b' bool, 'i' int64, 'f' float64, 's' string, 'L' slice, 'M' map (string keys); c06_r7.go: 'u' host integer of another Go type, 'P' pointer
 	b    bool
 	i    int64
 	f    float64
 	s    string
 	el   []c06V   // slice elements / map values (parallel to keys)
 	keys []string // map keys
+	u    uint64   // 'u': the value of an unsigned host integer (signed ones use i)
+	w    byte     // 'u': index into c06HostInts (the Go type); 'P': 0 = pointer to an interface cell, 1 = pointer to a typed slot (pointee: el[0])
 
 	keyCache string
 }
@@ -103,6 +107,8 @@ func c06M(kv ...interface{}) c06V {
 
 func (v c06V) goVal() interface{} {
 	switch v.k {
+	case 'u', 'P':
+		return c06GoValR7(v)
 	case 'n':
 		return nil
 	case 'b':
@@ -131,6 +137,8 @@ func (v c06V) goVal() interface{} {
 // positional form when short enough). ok=false when the value has no literal.
 func (v c06V) lit(style int) (string, bool) {
 	switch v.k {
+	case 'u', 'P':
+		return "", false // only the host hands in other integer types; a pointer is made by statements (c06_r7.go)
 	case 'n':
 		return "nil", true
 	case 'b':
@@ -187,7 +195,11 @@ func (v c06V) lit(style int) (string, bool) {
 
 func (v *c06V) key() string {
 	if v.keyCache == "" {
-		v.keyCache = ank.Render(v.goVal())
+		if v.k == 'u' || v.k == 'P' {
+			v.keyCache = c06KeyR7(*v)
+		} else {
+			v.keyCache = ank.Render(v.goVal())
+		}
 	}
 	return v.keyCache
 }
@@ -206,11 +218,16 @@ func (v c06V) kind() string {
 		return "string"
 	case 'L':
 		return "slice"
+	case 'u':
+		return c06HostInts[v.w].label
+	case 'P':
+		return "ptr"
 	}
 	return "map"
 }
 
 func (v c06V) isNum() bool { return v.k == 'i' || v.k == 'f' }
+func (v c06V) isInt() bool { return v.k == 'i' || v.k == 'u' }
 
 func c06IntExact(i int64) bool {
 	bi, _ := new(big.Float).SetFloat64(float64(i)).Int(nil)
@@ -254,6 +271,8 @@ func (v c06V) desc() string {
 		return "float[" + c06MagBand(math.Abs(v.f)) + "]"
 	case 's':
 		return "string[" + c06Spelling(v.s) + "]"
+	case 'u', 'P':
+		return c06DescR7(v)
 	}
 	return v.kind()
 }
@@ -397,12 +416,18 @@ func c06StrNum(s string, n c06V) c06Tri {
 			perr = strconv.ErrRange
 		}
 	}
-	if n.k == 'i' {
-		exactEq := r.Cmp(new(big.Rat).SetInt64(n.i)) == 0
+	if n.k == 'i' || n.k == 'u' {
+		nr, nf := new(big.Rat).SetInt64(n.i), float64(n.i)
+		if n.k == 'u' { // a host integer of another Go type (c06_r7.go): the same rule on its mathematical value
+			bi := c06HostIntBig(n)
+			nr = new(big.Rat).SetInt(bi)
+			nf, _ = new(big.Float).SetInt(bi).Float64()
+		}
+		exactEq := r.Cmp(nr) == 0
 		if c06IntSpelledRe.MatchString(s) || exactEq {
 			return c06T(exactEq) // strconv.ParseInt reference: exact
 		}
-		if perr == nil && pf == float64(n.i) && r.IsInt() {
+		if perr == nil && pf == nf && r.IsInt() {
 			return c06Unspec // another integer that is equal only after rounding to float64
 		}
 		return c06False // a numeral with a non-zero fraction denotes no integer, however small the fraction
@@ -449,6 +474,9 @@ func c06And(a, b c06Tri) c06Tri {
 // structural comparison; leaves of different primitive types are "unspecified"
 // unless they differ under every reading.
 func c06Struct(a, b c06V) c06Tri {
+	if c06IsR7(a) || c06IsR7(b) {
+		return c06StructR7(a, b)
+	}
 	ac, bc := a.k == 'L' || a.k == 'M', b.k == 'L' || b.k == 'M'
 	switch {
 	case a.k == 'n' || b.k == 'n':
@@ -534,6 +562,9 @@ func c06Struct(a, b c06V) c06Tri {
 
 // c06Ref: the verdict the statement prescribes for a == b, and the rule it comes from.
 func c06Ref(a, b c06V) (c06Tri, string) {
+	if c06IsR7(a) || c06IsR7(b) {
+		return c06RefR7(a, b)
+	}
 	ac, bc := a.k == 'L' || a.k == 'M', b.k == 'L' || b.k == 'M'
 	switch {
 	case a.k == 'n' || b.k == 'n':
@@ -563,12 +594,15 @@ func c06Ref(a, b c06V) (c06Tri, string) {
 // exact mathematical equality of an int and a float (reported next to the
 // observed <=/>= so that the float64-rounding class stays visible).
 func c06ExactNumEq(a, b c06V) (bool, bool) {
-	if !a.isNum() || !b.isNum() {
+	if !(a.isNum() || a.k == 'u') || !(b.isNum() || b.k == 'u') {
 		return false, false
 	}
 	rat := func(v c06V) *big.Rat {
 		if v.k == 'i' {
 			return new(big.Rat).SetInt64(v.i)
+		}
+		if v.k == 'u' {
+			return new(big.Rat).SetInt(c06HostIntBig(v))
 		}
 		if math.IsNaN(v.f) || math.IsInf(v.f, 0) {
 			return nil
@@ -685,7 +719,8 @@ func (r *c06Run) observe(base *env.Env, p *c06Pair) map[string]c06Obs {
 	for _, f := range c06Forms {
 		obs[f.name] = r.exec(e, p.pre+fmt.Sprintf(f.f, p.A, p.B), hkey, false)
 	}
-	mixed := p.a.isNum() && p.b.isNum() && p.a.k != p.b.k
+	// an integer (int64 or a host integer of another Go type) against a float
+	mixed := (p.a.k == 'f' && p.b.isInt()) || (p.a.isInt() && p.b.k == 'f')
 	if mixed {
 		obs["le"] = r.exec(e, p.pre+p.A+" <= "+p.B, hkey, false)
 		obs["ge"] = r.exec(e, p.pre+p.A+" >= "+p.B, hkey, false)
@@ -1184,6 +1219,10 @@ func c06Copy(v c06V) c06V {
 // a value related to v: equal, equal under another type/spelling, or a near miss
 func c06Derive(rng c06Rng, v c06V) c06V {
 	switch v.k {
+	case 'u':
+		return c06DeriveU(rng, v)
+	case 'P':
+		return c06Copy(v)
 	case 'i':
 		switch rng.Intn(7) {
 		case 0:
@@ -1386,9 +1425,11 @@ func init() {
 		Plan: func(tier string) fw.Plan {
 			nRand, nConc, nLong, nAgain := 400, 12, 30, 56
 			nInf, nTyped := 16, 32
+			nPtr, nUns := 6, 8
 			if tier == "thorough" {
 				nRand, nConc, nLong, nAgain = 25000, 300, 1500, 3000
 				nInf, nTyped = 1200, 4000
+				nPtr, nUns = 1500, 2000
 			}
 			return fw.Plan{
 				Level: "exploration",
@@ -1412,10 +1453,10 @@ func init() {
 					"the varying operand (v, vs[i], m.k, g(), (v), a parameter) sits in the list of `in` / the case list as a direct element, inside nested list literals or as the VALUE of nested map literals "+
 					"(%d fixed wrappers x 4 drivers all met over the first 56 case indices, plus random wrappers; also as the KEY of a map literal, with string values), next to 0..2 constant elements, or in the subject against an all-constant list; "+
 					"subjects per round are the wrapped value of this round, of the first round, of the previous round, near misses, constants. Per round: in = switch = OR(== of that round), != negates ==, == follows the statement's rule. "+
-					c06R6Rule()+
+					c06R6Rule()+c06R7Rule()+
 					"Every evaluation is one vm.Execute whose boolean enters an algebraic law or a reference rule of the statement (non-trivial); distinct = distinct (source, bound values).", n*n, n, nViews,
 					c06LongEnumCases(), len(c06LongInts), len(c06LongLens), len(c06LongKinds), len(c06FixedWraps)),
-				Assumptions: []string{
+				Assumptions: append([]string{
 					"Go's ==, strconv.ParseFloat and math/big are the reference for 'same primitive type', 'denotes that number' and exact arithmetic",
 					"the int/float rule is judged against anko's own observed <= and >= as the statement prescribes; exact-math disagreement is only counted",
 					"bool vs non-bool, strconv-only spellings (0x10, inf, +5, 1_0, .5, 1E6), numerals equal only after float64 rounding, cross-type container leaves and NaN leaves are unspecified: laws only",
@@ -1425,7 +1466,7 @@ func init() {
 					"equality, membership and switch matching are relations on the values the operands have at the moment of the evaluation: evaluating the same expression again after its operands changed must answer for the new values (vm.Run of one parsed tree several times is a supported use of the API)",
 					"no decimal numeral denotes an infinity: a well-formed numeral whose value lies beyond the float64 range denotes a finite number no float64 holds, so it equals neither +Inf nor -Inf nor any other float (math/big.Rat decides 'beyond the range': the exact value rounds to no finite float64)",
 					"`in` is the existential closure of == over the elements of its right operand whatever Go type that list has ([]interface{}, []string, []int64, []float64, []bool; bound by the host, returned by a host function or strings.Split/Fields, made by make, written as a typed literal, a view of a longer slice, stored in a container): the elements are read back with tl[j] and x == tl[j] is observed in the same environment; typed lists only occur as the right operand of `in`, never as operands of == (typed against untyped containers: the statement is silent)",
-				},
+				}, c06R7Assumptions()...),
 				Phases: []fw.Phase{
 					{Name: "enum", Cases: n + 1 + nViews, Chunk: 6, Exhaust: true, TimeoutS: 600},
 					{Name: "rand", Cases: nRand, Chunk: 50, TimeoutS: 900},
@@ -1434,6 +1475,8 @@ func init() {
 					{Name: "again", Cases: nAgain, Chunk: 16, Jobs: 4, TimeoutS: 900, MemMB: 3072},
 					{Name: "inf", Cases: c06InfEnumCases() + nInf, Chunk: 8, Jobs: 4, TimeoutS: 900, MemMB: 3072},
 					{Name: "typed", Cases: c06TypedEnumCases() + nTyped, Chunk: 8, Jobs: 4, TimeoutS: 900, MemMB: 3072},
+					{Name: "ptr", Cases: c06PtrEnumCases() + nPtr, Chunk: 3, Jobs: 4, TimeoutS: 900, MemMB: 3072},
+					{Name: "uns", Cases: c06UnsEnumCases() + nUns, Chunk: 6, Jobs: 4, TimeoutS: 900, MemMB: 3072},
 				},
 			}
 		},
@@ -1462,6 +1505,22 @@ func init() {
 			}
 			if c.Phase == "typed" {
 				r.typedCase(base)
+				return
+			}
+			if c.Phase == "ptr" {
+				if c.Index < c06PtrEnumCases() {
+					r.ptrEnum(base, c.Index)
+				} else {
+					r.ptrRand(base)
+				}
+				return
+			}
+			if c.Phase == "uns" {
+				if c.Index < c06UnsEnumCases() {
+					r.unsEnum(base, c.Index)
+				} else {
+					r.unsRand(base)
+				}
 				return
 			}
 			if c.Phase == "enum" {
